@@ -53,9 +53,8 @@ pub open spec fn data_post<'a>(cached: Option<Seq<TemplateField>>, b: &'a [u8], 
 impl Data {
 //@ fn expanded variable_versions::ipfix /impl<'nom> Data/ parse_be
 //@   generics: <'nom>
-//@   rules: R7 R10
+//@   rules: R9b R7 R10
 //@   contract: stubs/ipfix_data_parse.rs
-//@   closure 0: i: &'nom [u8] | -> (o: IResult<&'nom [u8], Records>) ensures ipfix_records_post(i, template.fields@, o)
 //@   ensures: data_post(if old(parser).templates@.contains_key(set_id) { Some(old(parser).templates@[set_id].fields@) } else { None }, orig_i, r->Ok_0.1.fields, r->Ok_0.1.padding@, r is Ok)
 //@   ensures: r is Ok ==> r->Ok_0.0@.len() == 0
 //@ end
@@ -68,9 +67,8 @@ impl Data {
 impl OptionsData {
 //@ fn expanded variable_versions::ipfix /impl<'nom> OptionsData/ parse_be
 //@   generics: <'nom>
-//@   rules: R7 R10
+//@   rules: R9b R7 R10
 //@   contract: stubs/ipfix_optionsdata_parse.rs
-//@   closure 0: i: &'nom [u8] | -> (o: IResult<&'nom [u8], Records>) ensures ipfix_records_post(i, template.fields@, o)
 //@   ensures: data_post(if old(parser).options_templates@.contains_key(set_id) { Some(old(parser).options_templates@[set_id].fields@) } else { None }, orig_i, r->Ok_0.1.fields, r->Ok_0.1.padding@, r is Ok)
 //@   ensures: r is Ok ==> r->Ok_0.0@.len() == 0
 //@ end
